@@ -30,6 +30,7 @@ import (
 
 	"github.com/lindb/lindb/config"
 	"github.com/lindb/lindb/constants"
+	"github.com/lindb/lindb/flow"
 	"github.com/lindb/lindb/index"
 	"github.com/lindb/lindb/internal/concurrent"
 	"github.com/lindb/lindb/internal/linmetric"
@@ -77,11 +78,42 @@ type lpFaults struct {
 	metaPanic     bool           // … panic
 	indexErr      models.ShardID // the shard's index database RETURNS an (injected) read error: GetSeriesIDsForMetric (metricAllSeries, a trackable operator), GetSeriesIDsByTagValueIDs (seriesFiltering, trackable)
 	collectErr    bool           // MetricMetaDatabase.CollectTagValues (the group-by tag value collect after the last grouping task) fails
+	// the generic fault site: ONE storage-interface call of the leaf path (named "<Interface>.<Method>") fails
+	// for shard siteShard (0: the call is not shard-bound): siteMode 'e' = it returns an injected read error,
+	// 'p' = it panics
+	site      string
+	siteMode  byte
+	siteShard models.ShardID
 }
 
 type lpFaultBox struct {
-	mu sync.Mutex
-	f  lpFaults
+	mu    sync.Mutex
+	f     lpFaults
+	fired int // how often the generic fault site was hit since the last set
+}
+
+// hit is called by every wrapped storage-interface method of the leaf path.
+func (b *lpFaultBox) hit(site string, shard models.ShardID) error {
+	b.mu.Lock()
+	f := b.f
+	match := f.site == site && (f.siteShard == 0 || f.siteShard == shard)
+	if match {
+		b.fired++
+	}
+	b.mu.Unlock()
+	if !match {
+		return nil
+	}
+	if f.siteMode == 'p' {
+		panic(fmt.Sprintf("injected panic in %s (shard %d)", site, shard))
+	}
+	return fmt.Errorf("%s (shard %d): %w", site, shard, errInjectedIO)
+}
+
+func (b *lpFaultBox) firedCount() int {
+	b.mu.Lock()
+	defer b.mu.Unlock()
+	return b.fired
 }
 
 func (b *lpFaultBox) get() lpFaults {
@@ -94,6 +126,7 @@ func (b *lpFaultBox) set(n lpFaults) {
 	b.mu.Lock()
 	defer b.mu.Unlock()
 	b.f = n
+	b.fired = 0
 }
 
 type lpEngine struct {
@@ -169,7 +202,24 @@ func (m *lpMetaDB) GetSchema(id metric.ID) (*metric.Schema, error) {
 	if err := m.fault("GetSchema"); err != nil {
 		return nil, err
 	}
+	if err := m.f.hit("MetaDB.GetSchema", 0); err != nil {
+		return nil, err
+	}
 	return m.MetricMetaDatabase.GetSchema(id)
+}
+
+func (m *lpMetaDB) GetMetricID(namespace, metricName string) (metric.ID, error) {
+	if err := m.f.hit("MetaDB.GetMetricID", 0); err != nil {
+		return 0, err
+	}
+	return m.MetricMetaDatabase.GetMetricID(namespace, metricName)
+}
+
+func (m *lpMetaDB) FindTagValueDsByExpr(tagKeyID tag.KeyID, expr stmt.TagFilter) (*roaring.Bitmap, error) {
+	if err := m.f.hit("MetaDB.FindTagValueDsByExpr", 0); err != nil {
+		return nil, err
+	}
+	return m.MetricMetaDatabase.FindTagValueDsByExpr(tagKeyID, expr)
 }
 
 func (d *lpDatabase) GetShard(id models.ShardID) (tsdb.Shard, bool) {
@@ -192,7 +242,42 @@ func (s *lpShard) GetDataFamilies(t timeutil.IntervalType, r timeutil.TimeRange)
 	if ft := s.f.get(); ft.planPanic != 0 && ft.planPanic == s.ShardID() {
 		panic(fmt.Sprintf("injected panic in Shard.GetDataFamilies of shard %d", s.ShardID()))
 	}
-	return s.Shard.GetDataFamilies(t, r)
+	fs := s.Shard.GetDataFamilies(t, r)
+	out := make([]tsdb.DataFamily, len(fs))
+	for i := range fs {
+		out[i] = &lpFamily{DataFamily: fs[i], f: s.f, id: s.ShardID()}
+	}
+	return out
+}
+
+// lpFamily wraps a real data family: Filter and the result sets' Load are fault sites.
+type lpFamily struct {
+	tsdb.DataFamily
+	f  *lpFaultBox
+	id models.ShardID
+}
+
+func (fam *lpFamily) Filter(ctx *flow.ShardExecuteContext) ([]flow.FilterResultSet, error) {
+	if err := fam.f.hit("DataFamily.Filter", fam.id); err != nil {
+		return nil, err
+	}
+	rs, err := fam.DataFamily.Filter(ctx)
+	for i := range rs {
+		rs[i] = &lpResultSet{FilterResultSet: rs[i], f: fam.f, id: fam.id}
+	}
+	return rs, err
+}
+
+type lpResultSet struct {
+	flow.FilterResultSet
+	f  *lpFaultBox
+	id models.ShardID
+}
+
+func (r *lpResultSet) Load(ctx *flow.DataLoadContext) flow.DataLoader {
+	// Load has no error result: only the panic mode means anything here
+	_ = r.f.hit("FilterResultSet.Load", r.id)
+	return r.FilterResultSet.Load(ctx)
 }
 
 func (s *lpShard) IndexDB() index.MetricIndexDatabase {
@@ -209,13 +294,26 @@ type lpIndexDB struct {
 }
 
 func (d *lpIndexDB) GetSeriesIDsByTagValueIDs(id tag.KeyID, ids *roaring.Bitmap) (*roaring.Bitmap, error) {
+	if err := d.f.hit("IndexDB.GetSeriesIDsByTagValueIDs", d.id); err != nil {
+		return nil, err
+	}
 	if ft := d.f.get(); ft.indexErr != 0 && ft.indexErr == d.id {
 		return nil, fmt.Errorf("GetSeriesIDsByTagValueIDs of shard %d: %w", d.id, errInjectedIO)
 	}
 	return d.MetricIndexDatabase.GetSeriesIDsByTagValueIDs(id, ids)
 }
 
+func (d *lpIndexDB) GetGroupingContext(ctx *flow.ShardExecuteContext) error {
+	if err := d.f.hit("IndexDB.GetGroupingContext", d.id); err != nil {
+		return err
+	}
+	return d.MetricIndexDatabase.GetGroupingContext(ctx)
+}
+
 func (d *lpIndexDB) GetSeriesIDsForMetric(metricID metric.ID) (*roaring.Bitmap, error) {
+	if err := d.f.hit("IndexDB.GetSeriesIDsForMetric", d.id); err != nil {
+		return nil, err
+	}
 	if ft := d.f.get(); ft.indexErr != 0 && ft.indexErr == d.id {
 		return nil, fmt.Errorf("GetSeriesIDsForMetric of shard %d: %w", d.id, errInjectedIO)
 	}
@@ -476,6 +574,22 @@ func lpScenarios() []lpScenario {
 		{name: "group-by-collect-tag-values-error", tree: "So(" + lpShardOK + "," + lpShardOK + ")", collect: true, wantErr: true, metric: lpMetric, field: lpField, groupBy: true, shards: []models.ShardID{1, 2}, faults: lpFaults{collectErr: true}},
 		{name: "group-by-collect-error-and-shard-over-limit", tree: "So(Ae," + lpShardOK + ")", collect: true, wantErr: true, metric: lpMetric, field: lpField, groupBy: true, shards: []models.ShardID{1, 2}, faults: lpFaults{collectErr: true}, maxSeries: 2},
 		{name: "group-by-collect-error-and-operator-panic", tree: "So(Ap," + lpShardOK + ")", collect: true, wantErr: true, metric: lpMetric, field: lpField, groupBy: true, shards: []models.ShardID{1, 2}, faults: lpFaults{collectErr: true, execPanic: 1}},
+		// ONE storage-interface call of the leaf path fails (returns a read error / panics), one site per scenario:
+		// the request still gets exactly one response, and it carries the error
+		{name: "site-MetaDB.GetMetricID-err", tree: "Se", wantErr: true, metric: lpMetric, field: lpField, shards: []models.ShardID{1, 2}, faults: lpFaults{site: "MetaDB.GetMetricID", siteMode: 'e'}},
+		{name: "site-MetaDB.GetMetricID-panic", tree: "Sp", wantErr: true, metric: lpMetric, field: lpField, shards: []models.ShardID{1, 2}, faults: lpFaults{site: "MetaDB.GetMetricID", siteMode: 'p'}},
+		{name: "site-MetaDB.GetSchema-err", tree: "Se", wantErr: true, metric: lpMetric, field: lpField, shards: []models.ShardID{1, 2}, faults: lpFaults{site: "MetaDB.GetSchema", siteMode: 'e'}},
+		{name: "site-MetaDB.GetSchema-panic", tree: "Sp", wantErr: true, metric: lpMetric, field: lpField, groupBy: true, shards: []models.ShardID{1, 2}, faults: lpFaults{site: "MetaDB.GetSchema", siteMode: 'p'}},
+		{name: "site-MetaDB.FindTagValueDsByExpr-err", tree: "Se", wantErr: true, metric: lpMetric, field: lpField, whereHost: true, shards: []models.ShardID{1, 2}, faults: lpFaults{site: "MetaDB.FindTagValueDsByExpr", siteMode: 'e'}},
+		{name: "site-MetaDB.FindTagValueDsByExpr-panic", tree: "Sp", wantErr: true, metric: lpMetric, field: lpField, whereHost: true, shards: []models.ShardID{1, 2}, faults: lpFaults{site: "MetaDB.FindTagValueDsByExpr", siteMode: 'p'}},
+		{name: "site-IndexDB.GetSeriesIDsByTagValueIDs-panic", tree: "So(Ap,Ao)", wantErr: true, metric: lpMetric, field: lpField, whereHost: true, shards: []models.ShardID{1, 2}, faults: lpFaults{site: "IndexDB.GetSeriesIDsByTagValueIDs", siteMode: 'p', siteShard: 1}},
+		{name: "site-IndexDB.GetSeriesIDsForMetric-err-second-shard", tree: "So(" + lpShardOK + ",Ae)", wantErr: true, metric: lpMetric, field: lpField, shards: []models.ShardID{1, 2}, faults: lpFaults{site: "IndexDB.GetSeriesIDsForMetric", siteMode: 'e', siteShard: 2}},
+		{name: "site-IndexDB.GetGroupingContext-err", tree: "So(Ae," + lpShardOK + ")", wantErr: true, metric: lpMetric, field: lpField, groupBy: true, shards: []models.ShardID{1, 2}, faults: lpFaults{site: "IndexDB.GetGroupingContext", siteMode: 'e', siteShard: 1}},
+		{name: "site-IndexDB.GetGroupingContext-panic", tree: "So(" + lpShardOK + ",Ap)", wantErr: true, metric: lpMetric, field: lpField, groupBy: true, shards: []models.ShardID{1, 2}, faults: lpFaults{site: "IndexDB.GetGroupingContext", siteMode: 'p', siteShard: 2}},
+		{name: "site-DataFamily.Filter-err", tree: "So(Ae," + lpShardOK + ")", wantErr: true, metric: lpMetric, field: lpField, shards: []models.ShardID{1, 2}, faults: lpFaults{site: "DataFamily.Filter", siteMode: 'e', siteShard: 1}},
+		{name: "site-DataFamily.Filter-panic-group-by", tree: "So(" + lpShardOK + ",Ap)", wantErr: true, metric: lpMetric, field: lpField, groupBy: true, shards: []models.ShardID{1, 2}, faults: lpFaults{site: "DataFamily.Filter", siteMode: 'p', siteShard: 2}},
+		{name: "site-FilterResultSet.Load-panic", tree: "So(Ao(Ao(Ap))," + lpShardOK + ")", wantErr: true, metric: lpMetric, field: lpField, shards: []models.ShardID{1, 2}, faults: lpFaults{site: "FilterResultSet.Load", siteMode: 'p', siteShard: 1}},
+		{name: "site-FilterResultSet.Load-panic-group-by", tree: "So(" + lpShardOK + ",Ao(Ao(Ap)))", wantErr: true, metric: lpMetric, field: lpField, groupBy: true, shards: []models.ShardID{1, 2}, faults: lpFaults{site: "FilterResultSet.Load", siteMode: 'p', siteShard: 2}},
 		// metadata suggest: every stage runs inline on the task's goroutine
 		{name: "suggest-namespaces", tree: "So", meta: stmt.Namespace},
 		{name: "suggest-metrics", tree: "So", meta: stmt.Metric, prefix: "c"},
@@ -633,6 +747,7 @@ func (leafArea) Run(c *core.Ctx) error {
 		}
 		// a second response of a broken pipeline would follow the first at once
 		time.Sleep(300 * time.Microsecond)
+		siteFired := w.faults.firedCount()
 		w.faults.set(lpFaults{})
 		if sc.maxSeries > 0 {
 			w.db.SetLimits(defaultLimits)
@@ -682,6 +797,14 @@ func (leafArea) Run(c *core.Ctx) error {
 		case !sc.wantErr && rs[0].ErrMsg != "":
 			// not a violation of the property; the model (which answers `nil`) will disagree
 			c.Note("unexpected error: " + strings.ReplaceAll(rs[0].ErrMsg, "\n", " "))
+		}
+		if sc.faults.site != "" {
+			if siteFired == 0 {
+				// the scenario is built so that the call happens; if not, the scenario (not lindb) is wrong
+				c.Fail("harness-fault-site-not-reached:"+sc.name, what+": the injected fault site "+sc.faults.site+" was never called")
+			} else {
+				c.Branch("fault-site-" + sc.faults.site + "-" + string(sc.faults.siteMode))
+			}
 		}
 		if len(rs) > 0 && !rs[0].Completed {
 			c.Fail("leaf-response-not-completed:"+sc.name, what+": response without Completed flag")
